@@ -111,7 +111,7 @@ def multitask_epoch_task(T, j):
 
 
 for _j in (0, 1):
-    add_task(['C01', 'C05', 'C10', 'C18', 'C20'], f'multitask_bcd:_bcd_epoch(_sparse)[ws=[{_j}]]', multitask_epoch_task, strength='B', j=_j)
+    add_task(['C01', 'C05', 'C10', 'C18', 'C19', 'C20'], f'multitask_bcd:_bcd_epoch(_sparse)[ws=[{_j}]]', multitask_epoch_task, strength='B', j=_j)
 
 
 def group_epoch_task(T, g, positive):
